@@ -508,6 +508,23 @@ func runC07Kinds(c *Ctx) {
 				var key string
 				var val *Term
 				switch x := in.(type) {
+				case *ssa.Call:
+					// f(ResourceName constant, values…): the values are of the constant's kind
+					// (SetQuotaResources(rs.MemoryResource, memory quota, memory limit, memory weight))
+					for _, a := range x.Call.Args {
+						if k := constKind(a); k != "" {
+							key = k
+						}
+					}
+					if key == "" {
+						continue
+					}
+					val = mk("tuple", "")
+					for _, a := range x.Call.Args {
+						if constKind(a) == "" {
+							val.Args = append(val.Args, termOf(a))
+						}
+					}
 				case *ssa.MapUpdate:
 					key = constKind(x.Key)
 					val = termOf(x.Value)
@@ -520,7 +537,11 @@ func runC07Kinds(c *Ctx) {
 					continue
 				}
 				kinds := termKinds(val)
+				_, isCallInstr := in.(*ssa.Call)
 				for _, f := range fx.FactsAt(in).sorted() {
+					if isCallInstr {
+						break
+					}
 					if f.T.Op == "bin" && len(f.T.Args) == 2 {
 						// guard "x == CONST" on a ResourceName selects the arm; guard on an accessor names a kind
 						for ai, a := range f.T.Args {
